@@ -128,3 +128,49 @@ Definition anim_error_alpha_statement (keep_dur : bool) : Prop :=
     close has_meta simple stf = Some out ->
     same_show_by alpha_only W H (eo_loop opts) out (playback rt_ll rt_ly repaired out)
                  (inputs_of W H acc).
+
+(* ------------------------------------------------------------------ *)
+(* Histories that mix AddFrame with pre-encoded frames (AddRawFrame).  A raw frame is
+   given by the picture its bitstream was encoded from (VP8L), an even offset inside the
+   canvas, blend, dispose and a duration.  The expected show is [ref_show].
+   [canvas_hyp] = true excludes the class of the known finding raw-frames:canvas-size:
+   the whole history is a single raw frame of duration 0, smaller than the canvas, and no
+   metadata is set (the muxer then writes a simple file whose canvas is the frame's size). *)
+
+Definition wf_raw (W H : Z) (r : mrec) : Prop :=
+  wf_img (m_img r) /\ m_lossy r = false /\
+  0 <= m_x r /\ 0 <= m_y r /\ m_x r mod 2 = 0 /\ m_y r mod 2 = 0 /\
+  m_x r + iw (m_img r) <= W /\ m_y r + ih (m_img r) <= H /\ 0 <= m_dur r <= max_duration.
+
+Definition wf_op (W H : Z) (o : op) : Prop :=
+  match o with OAdd f => wf_input f | ORaw r => wf_raw W H r end.
+
+Definition lone_small_raw_ok (W H : Z) (has_meta : bool) (acc : list op) : Prop :=
+  forall r, acc = [ORaw r] ->
+    has_meta = true \/ 0 < m_dur r \/ (iw (m_img r) = W /\ ih (m_img r) = H).
+
+Definition anim_mixed_roundtrip_statement (canvas_hyp : bool) : Prop :=
+  forall (rt_ll rt_ly : img -> img) (W H : Z) (opts : eopts) (ops : list op)
+         (oracle : nat -> orc) (fails : nat -> efail) (maxf : Z) (has_meta simple : bool)
+         (st0 stf : est) (acc : list op) (out : output),
+    codec_lossless rt_ll ->
+    wf_canvas_dims W H -> lossless_opts opts -> Forall (wf_op W H) ops ->
+    new_encoder W H opts = Some st0 ->
+    run_ops repaired maxf oracle fails st0 ops = (stf, acc) ->
+    (canvas_hyp = true -> lone_small_raw_ok W H has_meta acc) ->
+    close has_meta simple stf = Some out ->
+    same_show W H (eo_loop opts) out (playback rt_ll rt_ly repaired out)
+              (ref_show W H (blank W H, None) acc).
+
+Definition anim_mixed_alpha_statement : Prop :=
+  forall (rt_ll rt_ly : img -> img) (W H : Z) (opts : eopts) (ops : list op)
+         (oracle : nat -> orc) (fails : nat -> efail) (maxf : Z) (has_meta simple : bool)
+         (st0 stf : est) (acc : list op) (out : output),
+    codec_lossless rt_ll -> codec_alpha_exact rt_ly ->
+    wf_canvas_dims W H -> alpha_opts opts -> Forall (wf_op W H) ops ->
+    new_encoder W H opts = Some st0 ->
+    run_ops repaired maxf oracle fails st0 ops = (stf, acc) ->
+    lone_small_raw_ok W H has_meta acc ->
+    close has_meta simple stf = Some out ->
+    same_show_by alpha_only W H (eo_loop opts) out (playback rt_ll rt_ly repaired out)
+                 (ref_show W H (blank W H, None) acc).
